@@ -5,6 +5,43 @@ Property theorems only; helper lemmas live in `Lemmas/CorrRemover.lean`.
 Notation: `X` training matrix (list of rows), `ids` the sensitive column positions (in the order of
 `sensitive_feature_ids`, after `lookup_`), `m` the number of columns, `S = sens ids X`,
 `Z = nonSens ids m X`, `β = beta_` (a parameter: any matrix satisfying the normal equations).
+
+CLAUSE → THEOREM TABLE (review R2; property text of properties.jsonl, clause by clause)
+  1 "fit_transform with alpha = 1 returns the non-sensitive columns minus their least-squares projection on the
+     per-column-centred sensitive columns"
+        transform_one_eq_residual (output = Z − (S − mean)·β), lstsq_minimises (that residual is THE least-squares one),
+        output_independent_of_solution (well defined although β is not unique), lifted_mean_per_column, lifted_center,
+        src_model_eq
+  2 "so every output column has zero sample covariance with every sensitive column of the training data"
+        uncorrelated, covNum_eq_normal_residual (quantitative), src_uncorrelated,
+        uncorrelated_two_rows (NEW: with n ≥ 2 the divisor n−1 is non-zero, so `cov = 0` is not a 0/0 artefact)
+  3 "for any number of sensitive columns given by position or by name"
+        all theorems quantify over `ids : List Nat` of any length; src_ids_by_position_or_name, lifted_split
+  4 "the sensitive columns themselves are dropped and the remaining columns keep their order"
+        drops_sensitive_keeps_order, src_drops_sensitive_keeps_order, lifted_split
+  5 "for general alpha the output is alpha*residual + (1-alpha)*original"
+        alpha_blend, transform_entry, alpha_zero, cov_alpha, src_alpha_blend, lifted_out_entry
+  6 "transform applies to new data the same affine map (training means and coefficients) learned in fit"
+        transform_new_data, transform_affine, transform_entry, lifted_transform_uses_training_statistics,
+        src_transform_new_data
+  NOT PROVED (trusted, stated in `trusted` of the check): that `numpy.linalg.lstsq` RETURNS a solution of the normal
+  equations for every matrix (existence of a least-squares solution).  `uncorrelated`, `cov_alpha`, `lstsq_minimises`
+  are conditional on `isLstsq … = true`; the driver evaluates that hypothesis exactly on every fitted `beta_`
+  (relation C15.isLstsq), and the examples at the end of this file show it is met by non-degenerate inputs
+  (two sensitive columns in non-increasing id order, correlation present, non-constant output) and by rank-deficient ones.
+
+TOTALISATION NOTES (review R2)
+  * `cov a b = covNum a b / (n − 1)`: for n = 1 Lean gives x/0 = 0 whatever the output is, numpy gives NaN
+    (`np.cov([2.],[1.])` → nan; `CorrelationRemover(sensitive_feature_ids=[0]).fit_transform([[1.,2.]])` → [[2.]]).
+    The `cov = 0` conjunct of `uncorrelated` is therefore only meaningful for n ≥ 2 (the property's quantifier):
+    `cov_eq_zero_iff`, `uncorrelated_two_rows`, `cov_single_row_is_totalisation` below.  The `covNum = 0` conjunct is
+    division-free apart from the column means and carries the content for every n ≥ 1.
+  * `ent`, `pick` use `getD _ 0`: an id ≥ m reads a zero column in the model where the real code raises
+    ("Columns … not found", covered by C20); the driver refuses such ids (`okIds`), ragged matrices (`wellShaped`) and a
+    `beta` of the wrong shape (`okBeta`) with `bad-op`.  The theorems hold for those inputs too, but say nothing about the code.
+  * `vsub` is `zipWith`: a stored mean of the wrong length would truncate; `transform_entry` / `transform_affine` carry
+    `p.mean.length = p.ids.length`, and `fitMean` has that length by construction (`fit_problem_shaped`).
+  * `colMean` divides by the number of rows: X = [] gives mean 0 (real code: validate_data raises); driver refuses X = [].
 -/
 import FairModel.Lemmas.CorrRemover
 import FairModel.Lemmas.CorrLifted
@@ -58,6 +95,40 @@ theorem uncorrelated (ids : List Nat) (m : Nat) (X β : Mat)
   have h0 := covNum_eq_normal_residual ids m X β j k hk
   rw [(isLstsq_iff _ _ _ _ _).mp hfit k hk j hj] at h0
   exact ⟨h0, by unfold cov; rw [h0]; simp⟩
+
+/-- NEW (R2): with at least two rows the divisor `n − 1` of the sample covariance is non-zero, so `cov = 0` says
+    exactly `covNum = 0` (no x/0 = 0 artefact) -/
+theorem cov_eq_zero_iff (a b : List Rat) (h : 2 ≤ a.length) : cov a b = 0 ↔ covNum a b = 0 := by
+  have hd : ((a.length : Rat) - 1) ≠ 0 := by
+    have : (2 : Rat) ≤ (a.length : Rat) := by exact_mod_cast h
+    intro e; linarith
+  unfold cov
+  constructor
+  · intro h0
+    rcases div_eq_zero_iff.mp h0 with h1 | h1
+    · exact h1
+    · exact absurd h1 hd
+  · intro h0; rw [h0]; simp
+
+/-- NEW (R2): … whereas for ONE row `cov` is 0 for ANY two columns: pure totalisation (numpy returns NaN there);
+    this is why the property's quantifier, the generator and `uncorrelated_two_rows` ask for n ≥ 2 -/
+theorem cov_single_row_is_totalisation (a b : List Rat) (h : a.length = 1) : cov a b = 0 := by
+  unfold cov; rw [h]; simp
+
+/-- NEW (R2): MAIN CLAUSE with the property's guard n ≥ 2 made explicit: the covariance is a genuine quotient
+    (divisor ≠ 0) and it is zero. -/
+theorem uncorrelated_two_rows (ids : List Nat) (m : Nat) (X β : Mat) (hn : 2 ≤ X.length)
+    (hfit : isLstsq (center (sens ids X) (fitMean ids X)) (nonSens ids m X) β
+              ids.length (nonSensIdx ids m).length = true)
+    (j k : Nat) (hj : j < (nonSensIdx ids m).length) (hk : k < ids.length) :
+    (((colOf (transform (fitted ids m X β 1) X) j).length : Rat) - 1 ≠ 0) ∧
+    cov (colOf (transform (fitted ids m X β 1) X) j) (colOf (sens ids X) k) = 0 := by
+  have hl : (colOf (transform (fitted ids m X β 1) X) j).length = X.length := by
+    simp [colOf, transform]
+  refine ⟨?_, (uncorrelated ids m X β hfit j k hj hk).2⟩
+  rw [hl]
+  have : (2 : Rat) ≤ (X.length : Rat) := by exact_mod_cast hn
+  intro e; linarith
 
 /-- entry-wise alpha blend: output = alpha * residual + (1 - alpha) * original -/
 theorem alpha_blend (p : Params) (x : List Rat) (j : Nat) (hj : j < (nonSensIdx p.ids p.m).length) :
@@ -513,5 +584,31 @@ example : CorrL.keptIdx [3, 0] 5 = [1, 2, 4] := by decide +kernel
 example : CorrRemoverSrc.sensitiveIdx (CorrRemoverSrc.lookupDataFrame [7, 5, 9]) [9, 7] = [2, 0] := by decide +kernel
 example : CorrL.isLstsqSrc [0, 1] 3 f2X okβ = true := by decide +kernel
 example : CorrL.transformSrc ⟨[0, 1], 3, CorrL.fitMeanSrc [0, 1] f2X, okβ, 1/2⟩ f2X = [[1/6], [1/6], [2/3]] := by decide +kernel
+
+/-! ### review R2: a NON-DEGENERATE witness for all hypotheses of `uncorrelated`, `uncorrelated_two_rows`, `cov_alpha`,
+`lstsq_minimises` at once: 4 rows, ids given in non-increasing order [2, 0], two kept columns, the input IS correlated
+with the sensitive columns (covariance numerators 1, −2, −1, −2), the output columns are not constant. -/
+def r2X : Mat := [[1, 2, 0, 1], [2, 1, 1, 3], [0, 4, 1, 2], [3, 3, 2, 0]]
+def r2β : Mat := [[3/2, -1/6], [-1, -1/3]]
+example : 2 ≤ r2X.length ∧
+    isLstsq (center (sens [2, 0] r2X) (fitMean [2, 0] r2X)) (nonSens [2, 0] 4 r2X) r2β
+      ([2, 0] : List Nat).length (nonSensIdx [2, 0] 4).length = true ∧
+    (nonSensIdx [2, 0] 4).length = 2 ∧ ([2, 0] : List Nat).length = 2 ∧ fitMean [2, 0] r2X = [1, 3/2] := by
+  decide +kernel
+/-- the input is correlated with both sensitive columns … -/
+example : covNum (colOf (nonSens [2, 0] 4 r2X) 0) (colOf (sens [2, 0] r2X) 0) = 1 ∧
+    covNum (colOf (nonSens [2, 0] 4 r2X) 0) (colOf (sens [2, 0] r2X) 1) = -2 ∧
+    covNum (colOf (nonSens [2, 0] 4 r2X) 1) (colOf (sens [2, 0] r2X) 0) = -1 := by decide +kernel
+/-- … the alpha = 1 output is not constant and is uncorrelated; alpha = 1/2 keeps exactly half (`cov_alpha`) -/
+example : transform (fitted [2, 0] 4 r2X r2β 1) r2X = [[3, 2/3], [3/2, 19/6], [5/2, 3/2], [3, 2/3]] ∧
+    covNum (colOf (transform (fitted [2, 0] 4 r2X r2β 1) r2X) 0) (colOf (sens [2, 0] r2X) 0) = 0 ∧
+    covNum (colOf (transform (fitted [2, 0] 4 r2X r2β 1) r2X) 1) (colOf (sens [2, 0] r2X) 1) = 0 ∧
+    transform (fitted [2, 0] 4 r2X r2β (1/2)) r2X = [[5/2, 5/6], [5/4, 37/12], [13/4, 7/4], [3, 1/3]] ∧
+    covNum (colOf (transform (fitted [2, 0] 4 r2X r2β (1/2)) r2X) 0) (colOf (sens [2, 0] r2X) 0) = 1/2 := by
+  decide +kernel
+/-- `transform_entry` / `transform_affine` hypothesis `mean.length = ids.length` holds for every fitted state -/
+example : (fitted [2, 0] 4 r2X r2β 1).mean.length = (fitted [2, 0] 4 r2X r2β 1).ids.length := by decide +kernel
+/-- `cov_eq_zero_iff` is not vacuous and its guard is needed: two rows, non-zero covariance -/
+example : cov [0, 1] [0, 2] = 1 ∧ covNum [0, 1] [0, 2] = 1 ∧ cov [5] [7] = 0 := by decide +kernel
 
 end C15
